@@ -328,3 +328,70 @@ func sortedUnique(xs []int) []int {
 	}
 	return out
 }
+
+// reach collects the IDs of all heap objects reachable from v.
+func (p *Path) reach(v Value, seen map[int]bool, depth int) {
+	if depth > 200 {
+		return
+	}
+	visitObj := func(id int) {
+		if id == 0 || seen[id] {
+			return
+		}
+		seen[id] = true
+		o := p.obj(id)
+		if o.IsMap {
+			for _, k := range o.Keys {
+				p.reach(k, seen, depth+1)
+			}
+			for _, x := range o.Vals {
+				p.reach(x, seen, depth+1)
+			}
+			return
+		}
+		if o.Dense != nil {
+			for _, c := range o.Dense {
+				if _, isTerm := c.(*Term); !isTerm && c != nil {
+					p.reach(c, seen, depth+1)
+				}
+			}
+		} else {
+			for _, c := range o.Sparse {
+				if _, isTerm := c.(*Term); !isTerm && c != nil {
+					p.reach(c, seen, depth+1)
+				}
+			}
+			for _, c := range o.Zero {
+				if _, isTerm := c.(*Term); !isTerm && c != nil {
+					p.reach(c, seen, depth+1)
+				}
+			}
+		}
+	}
+	switch x := v.(type) {
+	case Ptr:
+		visitObj(x.Obj)
+	case Slice:
+		visitObj(x.P.Obj)
+	case Str:
+		if x.IsObj {
+			visitObj(x.P.Obj)
+		}
+	case Iface:
+		if x.V != nil {
+			p.reach(x.V, seen, depth+1)
+		}
+	case *Agg:
+		for _, e := range x.E {
+			p.reach(e, seen, depth+1)
+		}
+	case Closure:
+		for _, b := range x.Binds {
+			p.reach(b, seen, depth+1)
+		}
+	case MapRef:
+		visitObj(x.Obj)
+	case ChanRef:
+		visitObj(x.Obj)
+	}
+}
